@@ -586,7 +586,7 @@ def is_valid_MatchValue_value(ast: AST, consts: tuple[type[constant]] = (str, by
 
                 l = l.operand
 
-            if l.__class__ is Constant and isinstance(l.value, (int, float)):
+            if l.__class__ is Constant and l.value.__class__ in (int, float):  # because bool is int
                 return True
 
     return False
